@@ -22,7 +22,7 @@ RULE = ("histories: command lists that create modules (custom Module, Linear, Se
 ASSUMPTIONS = ["cycles in the module graph are not generated",
                "what zero_grad does to frozen parameters is not specified and not asserted"]
 
-NAMES = ["a", "b", "c", "w"]
+NAMES = ["a", "b", "c", "w", "_p", "_m", "__x", "a1"]
 IDX = st.sampled_from(list(range(31)))
 
 
@@ -36,7 +36,8 @@ def histories(draw):
         if k == "new_linear":
             s.update(i=draw(st.integers(1, 3)), o=draw(st.integers(1, 3)), bias=draw(st.booleans()))
         elif k == "new_seq":
-            s.update(children=draw(st.lists(st.integers(0, 30), min_size=1, max_size=3)), od=draw(st.booleans()))
+            s.update(children=draw(st.one_of(st.lists(st.integers(0, 30), min_size=1, max_size=3),
+                                             st.lists(st.integers(0, 30), min_size=11, max_size=13))), od=draw(st.booleans()))
         elif k == "new_param":
             s.update(shape=draw(st.sampled_from([[], [2], [2, 3], [1]])), rg=draw(st.booleans()))
         elif k == "set":
@@ -296,10 +297,10 @@ class Affine(nn.Module):
 
 @st.composite
 def seq_cases(draw):
-    n = draw(st.integers(1, 5))
-    return {"ab": [[draw(st.sampled_from([2.0, -1.0, 0.5, 3.0])), draw(st.sampled_from([1.0, -2.0, 0.25, 0.0]))] for _ in range(n)],
+    n = draw(st.sampled_from([1, 2, 3, 4, 5, 11, 12, 23]))
+    return {"ab": [[draw(st.sampled_from([2.0, -1.0, 0.5, 3.0] if n <= 5 else [1.0, -1.0, 0.5, -0.5])), draw(st.sampled_from([1.0, -2.0, 0.25, 0.0]))] for _ in range(n)],
             "od": draw(st.booleans()), "x": [draw(st.integers(-8, 8)) / 4.0 for _ in range(3)],
-            "names": draw(st.permutations(["z", "m", "a", "k", "b"]))}
+            "names": draw(st.permutations(["z", "m", "a", "k", "b"])) + [f"n{j}" for j in range(30)]}
 
 
 def check_seq(c, rec):
